@@ -1,23 +1,23 @@
-\* quick tier: every scenario shape (source 3, destination empty/partial/full, batch/fetchers/submitters 1..2, modes, honest/forked) x 1 fault, no growth
+\* thorough tier: signer lag x growth between rounds, exhaustively: continuous mode, source 2..3 growing by up to 2 (indices up to 5), every schedule of the signer, batch 1..2, fetchers 1..2, submitters 1..2, Run / RunWhenMaster, 1 fault of every kind, 1 restart
 CONSTANTS
-  MaxIdx = 4
+  MaxIdx = 5
   FaultKinds = {"short", "emptyPage", "fetchErr", "quota", "fatal", "rootErr", "sthErr", "consErr", "cancel", "revoke"}
   KeepHist = FALSE
-  SrcSizes = {3}
-  Growths = {0}
+  SrcSizes = {2, 3}
+  Growths = {1, 2}
   Batches = {1, 2}
   FetcherCounts = {1, 2}
   SubmitterCounts = {1, 2}
   Modes = {"run", "master"}
-  Conts = {TRUE, FALSE}
-  Forks = {TRUE, FALSE}
+  Conts = {TRUE}
+  Forks = {FALSE}
   Starts = {0}
-  TreeStart = TRUE
+  TreeStart = FALSE
   Ends = {0}
   Aheads = {0}
   Lags = {0}
   MaxFaults = 1
-  FaultBudgets = {1}
+  FaultBudgets = {0, 1}
   MaxRestarts = 1
 INIT MCInit
 NEXT Next
